@@ -67,6 +67,8 @@ pub struct BusSim {
     /// PHY model: a station does not receive bytes that overlap one of its own transmissions (receiver
     /// disabled while the driver is enabled). Default false: it receives them corrupted.
     pub deaf_while_transmitting: bool,
+    /// the stations' clock reads bus time + this offset (the PHY ports translate back)
+    pub origin_us: i64,
 }
 
 impl BusSim {
@@ -82,6 +84,7 @@ impl BusSim {
             faults: vec![],
             last_sender: 255,
             deaf_while_transmitting: false,
+            origin_us: 0,
         }
     }
 
@@ -287,7 +290,7 @@ pub struct BusPort<'a> {
 
 impl ProfibusPhy for BusPort<'_> {
     fn poll_transmission(&mut self, now: Instant) -> bool {
-        self.bus.is_transmitting(self.id, now.total_micros())
+        self.bus.is_transmitting(self.id, now.total_micros() - self.bus.origin_us)
     }
 
     fn transmit_data<F, R>(&mut self, now: Instant, f: F) -> R
@@ -296,7 +299,7 @@ impl ProfibusPhy for BusPort<'_> {
     {
         let mut buf = [0u8; 256];
         let (len, r) = f(&mut buf);
-        self.bus.transmit(self.id, now.total_micros(), &buf[..len]);
+        self.bus.transmit(self.id, now.total_micros() - self.bus.origin_us, &buf[..len]);
         r
     }
 
@@ -304,7 +307,7 @@ impl ProfibusPhy for BusPort<'_> {
     where
         F: FnOnce(&[u8]) -> (usize, R),
     {
-        self.bus.fill_rx(self.id, now.total_micros());
+        self.bus.fill_rx(self.id, now.total_micros() - self.bus.origin_us);
         let rx = std::mem::take(&mut self.bus.ports[self.id as usize].rx);
         let (drop, r) = f(&rx);
         assert!(drop <= rx.len(), "PHY user dropped more bytes than were pending");
